@@ -65,15 +65,14 @@ fn builtin(name: &str) -> Option<String>
     })
 }
 
-/// The rules of the grammar at the pinned commit.  A SILENT rule (`_{ .. }`) that is not among them is a
-/// helper introduced since: it is inlined at its uses.  That preserves the meaning: a silent rule produces
-/// no pair and leaves the atomicity as it is (pest's `ParserState::rule` is not even called for it by the
-/// generator; in the model `run (ERule n RSilent false e) = run e`, lemma `silent_rule_transparent`).
-const PINNED_RULES: [&str; 17] = [
-    "WHITESPACE", "COMMENT", "rust_identifier", "string_value", "string_literal", "silent_string_value",
-    "silent_string_literal", "target_arg", "kvp_value", "kvp_modifiers", "kvp_key", "kvp_args", "macro_args",
-    "macro_name", "log_macro", "other_name", "file",
-];
+/// SILENT rules (`_{ .. }`) are inlined at their uses -- all of them except WHITESPACE and COMMENT, which pest
+/// calls implicitly.  That preserves the meaning: a silent rule produces no pair and leaves the atomicity as it
+/// is (in the model `run (ERule n RSilent false e) = run e`, lemma `silent_rule_transparent`), and it makes the
+/// generated grammar independent of how a maintainer names, splits or factors such helper rules.
+fn keeps_its_name(name: &str) -> bool
+{
+    name == "WHITESPACE" || name == "COMMENT"
+}
 
 type Inline<'a> = BTreeMap<String, &'a OptimizedExpr>;
 
@@ -151,7 +150,7 @@ pub fn translate(path: &str) -> String
     };
     let inl: Inline = rules
         .iter()
-        .filter(|r| r.ty == RuleType::Silent && !PINNED_RULES.contains(&r.name.as_str()))
+        .filter(|r| r.ty == RuleType::Silent && !keeps_its_name(&r.name))
         .map(|r| (r.name.clone(), &r.expr))
         .collect();
     let rules: Vec<OptimizedRule> = rules.iter().filter(|r| !inl.contains_key(&r.name)).cloned().collect();
